@@ -19,6 +19,8 @@ def random_cases(rng, n_grammars, per_grammar, opts=None, cfgf=None):
         cfg = cfgf(rng) if cfgf else D.default_cfg(
             skipws=rng.random() < 0.7, autoinit=rng.random() < 0.6, regroup=rng.random() < 0.4,
             ws=G.codes(rng.choice(["", "", " ", " \n", "\t "])))
+        if rng.random() < 0.2:
+            cfg["userclasses"] = True
         sg = G.SentenceGen(rng, g)
         has_c = any(r["name"] == "Comment" for r in g["rules"])
         for k in range(per_grammar):
